@@ -25,3 +25,17 @@ Fixpoint mismatches_from (i : nat) (cs : list case) : list nat :=
   | c :: r => if case_ok c then mismatches_from (S i) r else i :: mismatches_from (S i) r
   end.
 Definition mismatches := mismatches_from 0.
+
+(* Second correspondence: collada.util._correctValInNode run on small elements.
+   (tag, value, after, children before, children after as the implementation left them) *)
+Definition cv_case := (atom * option toks * option (list atom) * list xml * list xml)%type.
+Definition cv_ok (c : cv_case) : bool :=
+  let '(t, v, after, before, got) := c in
+  let want := correct_val t v after before in
+  list_eqb xml_eqb want got && list_eqb N.eqb (map xuid want) (map xuid got).
+Fixpoint cv_mismatches_from (i : nat) (cs : list cv_case) : list nat :=
+  match cs with
+  | [] => []
+  | c :: r => if cv_ok c then cv_mismatches_from (S i) r else i :: cv_mismatches_from (S i) r
+  end.
+Definition cv_mismatches := cv_mismatches_from 0.
